@@ -1196,6 +1196,17 @@ func (x *Explorer) Run() []Hit {
 							}
 							return false
 						}
+						// the result keeps the key it has in the caller's terms
+						// (a pure library call of the helper's arguments): the
+						// assumption made under the call's name holds for it
+						carryPin := func(name, k string) {
+							if k == name || len(k) > maxKeyLen {
+								return
+							}
+							if want, pinned := st.pin[eqKey(name, "nil")]; pinned {
+								ns.Facts[eqKey(k, "nil")] = want
+							}
+						}
 						switch len(i.Results) {
 						case 0:
 						case 1:
@@ -1206,6 +1217,7 @@ func (x *Explorer) Run() []Hit {
 							k := res(i.Results[0], x.rn(cv))
 							if k != x.rn(cv) {
 								ns.alias[x.rn(cv)] = k
+								carryPin(x.rn(cv), k)
 							}
 						default:
 							var ks []string
@@ -1213,7 +1225,9 @@ func (x *Explorer) Run() []Hit {
 								if contradicts(r, x.rn(cv)+"#"+itoa(ri)) {
 									pruned = true
 								}
-								ks = append(ks, res(r, x.rn(cv)+"#"+itoa(ri)))
+								k := res(r, x.rn(cv)+"#"+itoa(ri))
+								carryPin(x.rn(cv)+"#"+itoa(ri), k)
+								ks = append(ks, k)
 							}
 							ns.tuple[x.rn(cv)] = ks
 						}
@@ -2004,4 +2018,29 @@ func runsNoModuleCode(p *Prog, c ssa.CallInstruction) bool {
 		}
 	}
 	return true
+}
+
+// Dump lists the facts, pins and tuples of a state (debugging aid).
+func (st *State) Dump() string {
+	var sb strings.Builder
+	for k, v := range st.pin {
+		sb.WriteString("   pin " + k + "=" + b2s(v) + "\n")
+	}
+	for k, v := range st.Facts {
+		sb.WriteString("   fact " + k + "=" + b2s(v) + "\n")
+	}
+	for k, v := range st.tuple {
+		sb.WriteString("   tuple " + k + "=" + strings.Join(v, ",") + "\n")
+	}
+	for k, v := range st.alias {
+		sb.WriteString("   alias " + k + "=" + v + "\n")
+	}
+	return sb.String()
+}
+
+func b2s(b bool) string {
+	if b {
+		return "true"
+	}
+	return "false"
 }
